@@ -57,11 +57,17 @@ structure Tbl where
   /-- operand level of prefix `NOT` -/
   nbp : Nat
 
-/-- may the printer omit the parentheses around a child? -/
+/-- may the printer omit the parentheses around a child?  `mixOf o = some s` records the
+crate's nested-binary encodings of ternary forms (`BETWEEN`/`NOT BETWEEN` ↦ `AND`,
+`LIKE`/`NOT LIKE` ↦ `ESCAPE`): the separator node is never parenthesised and its two
+operands are decided by `dropML` / `dropMR` (the parent is the mixfix operator). -/
 structure Policy where
   dropL : Nat → Ex → Bool
   dropR : Nat → Ex → Bool
   dropN : Ex → Bool
+  mixOf : Nat → Option Nat
+  dropML : Nat → Ex → Bool
+  dropMR : Nat → Ex → Bool
 
 def wrap (b : Bool) (ts : List Tok) : List Tok := if b then ts else Tok.lp :: (ts ++ [Tok.rp])
 
@@ -70,6 +76,11 @@ mutual
   def pr (p : Policy) : Ex → List Tok
     | .atom a => [Tok.atom a]
     | .un x => Tok.not :: wrap (p.dropN x) (pr p x)
+    | .bin l o r@(.bin a s b) =>
+      wrap (p.dropL o l) (pr p l) ++ Tok.op o ::
+        (if p.mixOf o = some s then
+           wrap (p.dropML o a) (pr p a) ++ Tok.op s :: wrap (p.dropMR o b) (pr p b)
+         else wrap (p.dropR o r) (pr p r))
     | .bin l o r => wrap (p.dropL o l) (pr p l) ++ Tok.op o :: wrap (p.dropR o r) (pr p r)
     | .node k args => Tok.opn k :: prArgs p args
   def prArgs (p : Policy) : ExList → List Tok
